@@ -492,6 +492,8 @@ def _collect_canary(key, sig, c, self_ty):
             e = re.sub(r'(?<![A-Za-z0-9_])Self(?![A-Za-z0-9_])', self_ty, e)
         return e
     params = [re.sub(r"'[a-z_]+\s*", '', q) for q in params]
+    if any(re.search(r'(?<![A-Za-z0-9_])Self(?![A-Za-z0-9_])', fix(x)) for x in params + reqs):
+        return            # refers to the (generic) Self type of a trait: no stand-alone canary
     CANARIES.append((key, [fix(p) for p in params], [fix(r) for r in reqs]))
 
 
